@@ -248,6 +248,95 @@ fn pick_operand(t: &mut Tape) -> i64 {
     }
 }
 
+// ------------------------------------------------------------------ FOR/NEXT on an Integer control variable
+
+/// NEXT adds the step to the control variable: that addition is Integer arithmetic too.
+fn check_for(t: &mut Tape, _ctx: &Ctx) -> Outcome {
+    let edge = |t: &mut Tape| -> i64 {
+        match t.below(5) {
+            0 => 32767 - t.range(0, 12),
+            1 => -32768 + t.range(0, 12),
+            2 => t.range(-40, 40),
+            3 => *t.pick(&[30000i64, -30000, 20000, -20000, 16384, 0]),
+            _ => t.u16() as i64 - 32768,
+        }
+    };
+    let a = edge(t);
+    let b = edge(t);
+    let s = match t.below(6) {
+        0 => 1,
+        1 => -1,
+        2 => t.range(-5, 5),
+        3 => *t.pick(&[1000i64, -1000, 20000, -20000, 32767, -32768, 16384]),
+        4 => t.range(2, 9),
+        _ => -t.range(2, 9),
+    };
+    let var = *t.pick(&["I%", "I%", "J"]);
+    let suf_b = *t.pick(&["", "", "!", "#"]);
+    let suf_s = *t.pick(&["", "", "!", "#"]);
+    let typed = |n: i64, suf: &str| -> String {
+        if suf.is_empty() {
+            int_src(n)
+        } else if n < 0 {
+            format!("(-{}{})", -n, suf)
+        } else {
+            format!("{}{}", n, suf)
+        }
+    };
+    let prog = vec![
+        "5 DEFINT J:C%=0".to_string(),
+        format!("20 FOR {}={} TO {} STEP {}", var, int_src(a), typed(b, suf_b), typed(s, suf_s)),
+        format!("30 C%=C%+1:IF C%>=50 THEN PRINT \"FUEL\";{}:END", var),
+        format!("40 NEXT {}", if t.chance(1, 2) { var } else { "" }),
+        format!("50 PRINT \"DONE\";{};C%", var),
+    ];
+    // oracle
+    let mut cur = a;
+    let mut count = 0i64;
+    let mut overflow = false;
+    let want = loop {
+        count += 1;
+        if count >= 50 {
+            break format!("FUEL{}", fmt_int(cur));
+        }
+        let new = cur + s;
+        if !(-32768..=32767).contains(&new) {
+            overflow = true;
+            break "?OVERFLOW IN 40\n".to_string();
+        }
+        cur = new;
+        let done = if s < 0 { cur < b } else { cur > b };
+        if done {
+            break format!("DONE{}{}", fmt_int(cur).trim_end_matches('\n'), fmt_int(count));
+        }
+    };
+    let mut term = Term::new();
+    let mut o = Opts::default();
+    o.max_calls = 2000;
+    for l in &prog {
+        term.line(l, &mut o);
+    }
+    term.take();
+    term.line("RUN", &mut o);
+    let evs = term.take();
+    let case = format!("{}\nRUN", prog.join("\n"));
+    if let Some(m) = crate::drive::has_panic(&evs) {
+        return Outcome::fail("panic", m, case);
+    }
+    let got = flat(&evs);
+    if got != want {
+        return Outcome::fail("for-next-integer-step", format!("printed {:?}, exact arithmetic gives {:?}", got, want), case);
+    }
+    // the control variable afterwards
+    term.line(&format!("PRINT {}", var), &mut o);
+    let after = flat(&term.take());
+    if after != fmt_int(cur) {
+        return Outcome::fail("for-next-integer-step", format!("control variable afterwards {:?}, expected {:?}", after, fmt_int(cur)), case);
+    }
+    let o2 = Outcome::pass(overflow || near_limit(cur), hash_str(&case)).with_labels(vec![if overflow { "NEXT overflows: OVERFLOW" } else { "loop ends in range" }]);
+    o2.with_case(case)
+}
+
 // ------------------------------------------------------------------ float -> Integer conversion
 
 fn f32_src(x: f32) -> String {
@@ -398,6 +487,7 @@ Non-trivial = an operand or the exact result lies within 2 of a 16-bit limit, or
             Sub::items("binary_boundary_pairs", gen_binary, check_binary_item, true),
             Sub::tape("binary_random_pairs", check_binary_random, 150_000, 8_000_000, 40),
             Sub::items("float_to_integer", gen_conv, check_conv, true),
+            Sub::tape("for_next_integer", check_for, 40_000, 1_500_000, 40),
         ],
     }
 }
